@@ -183,6 +183,8 @@ fn main() {
             props_marlin::c05(&mut ctx);
             let n = ctx.n(6, 80);
             all_schemes!(c02_c05, &mut ctx, "C05", n);
+            // the streaming multi-polynomial / multi-point verifier is a batched verifier too
+            props_c14::interop(&mut ctx, "C05");
         }
         "C10" => {
             props_kzg::c10(&mut ctx);
